@@ -90,6 +90,10 @@ def natsStr (xs : List Nat) : String := joinOr "," (xs.map toString)
 def intsStr (xs : List Int) : String := joinOr "," (xs.map toString)
 def chainStr (c : List Nat) : String := if c.isEmpty then "e" else ".".intercalate (c.map toString)
 
+def insertNat (x : Nat) : List Nat → List Nat
+  | [] => [x]
+  | y :: ys => if x ≤ y then x :: y :: ys else y :: insertNat x ys
+
 def insertByName (e : Nat × List Nat) : List (Nat × List Nat) → List (Nat × List Nat)
   | [] => [e]
   | x :: xs => if e.1 < x.1 then e :: x :: xs else if e.1 = x.1 then e :: xs else x :: insertByName e xs
@@ -199,6 +203,23 @@ def step (s : S) (ts : List String) : S × String :=
           else
             let r := csd dS dst sS sst
             ({ s with states := insert s.states d (dsp, r.1) }, s!"ok res={r.2.code} atoms={atomsStr dS r.1}")
+        | _, _ => bad
+      | _, _ => bad
+    | _, _ => bad
+  | ["common", d, x] =>
+    match d.toNat?, x.toNat? with
+    | some d, some x =>
+      match lookup s.states d, lookup s.states x with
+      | some (dsp, dst), some (ssp, sst) =>
+        match lookup s.spaces dsp, lookup s.spaces ssp with
+        | some dS, some sS =>
+          if hasWC dS || hasWC sS || isWrapper dS || isWrapper sS then bad
+          else
+            let names := (commonSubspaces dS sS).map Sp.name
+            let r := csdNames dS dst sS sst names
+            let sorted := names.foldl (fun acc n => insertNat n acc) []
+            ({ s with states := insert s.states d (dsp, r.1) },
+              s!"ok names={natsStr sorted} res={r.2.code} atoms={atomsStr dS r.1}")
         | _, _ => bad
       | _, _ => bad
     | _, _ => bad
